@@ -130,7 +130,7 @@ def main(argv=None):
     seed = int(os.environ.get("VERIF_SEED", "0") or 0)
     os.environ["PYVC_TIER"] = tier        # units may widen their enumerations in the thorough tier
     if tier == 'thorough':
-        os.environ.setdefault("PYVC_BOUNDED_SECS", "150")     # longer bounded companions (the quick tier caps them at 45 s)
+        os.environ.setdefault("PYVC_BOUNDED_SECS", "90")     # longer bounded companions (the quick tier caps them at 45 s)
     t_start = time.time()
     ensure_deps()
     OUT = os.environ.get("PYVC_OUT", VERIF)          # scratch runs (mutant matrix) write elsewhere
